@@ -73,7 +73,7 @@ package jschema
 //@   may_panic
 //@   modifies pool_state(), mapof(b.processedTypes)
 //@   ensures result1 == nil ==> notPooled(result0)
-//@   loop#1 invariant -1 <= rangeindex && rangeindex < len(children) && buf != nil && pool_buffer(buf) && b != nil
+//@   loop#1 invariant -1 <= rangeindex && rangeindex < len(children) && buf != nil && pool_buffer(buf) && pool_held(buf) && b != nil
 //@   loop#1 decreases len(children) - rangeindex
 
 //@ func (*exampleBuilder).buildObjectKey
@@ -89,7 +89,7 @@ package jschema
 //@   may_panic
 //@   modifies pool_state(), mapof(b.processedTypes)
 //@   ensures result1 == nil ==> notPooled(result0)
-//@   loop#1 invariant -1 <= rangeindex && rangeindex < len(children) && buf != nil && pool_buffer(buf) && b != nil
+//@   loop#1 invariant -1 <= rangeindex && rangeindex < len(children) && buf != nil && pool_buffer(buf) && pool_held(buf) && b != nil
 //@   loop#1 decreases len(children) - rangeindex
 
 //@ func (*exampleBuilder).buildExampleForMixedValueNode
@@ -112,7 +112,7 @@ package jschema
 //@   may_panic
 //@   modifies pool_state()
 //@   ensures result1 == nil ==> notPooled(result0)
-//@   loop#1 invariant -1 <= rangeindex && rangeindex < len(children) && b != nil && pool_buffer(b)
+//@   loop#1 invariant -1 <= rangeindex && rangeindex < len(children) && b != nil && pool_buffer(b) && pool_held(b)
 //@   loop#1 decreases len(children) - rangeindex
 
 //@ func buildExampleForArrayNode
@@ -120,7 +120,7 @@ package jschema
 //@   may_panic
 //@   modifies pool_state()
 //@   ensures result1 == nil ==> notPooled(result0)
-//@   loop#1 invariant -1 <= rangeindex && rangeindex < len(children) && b != nil && pool_buffer(b)
+//@   loop#1 invariant -1 <= rangeindex && rangeindex < len(children) && b != nil && pool_buffer(b) && pool_held(b)
 //@   loop#1 decreases len(children) - rangeindex
 
 //@ func buildExampleForMixedValueNode
